@@ -1,0 +1,14 @@
+//go:build verif
+
+package nfs
+
+import (
+	"github.com/mit-pdos/go-nfsd/fstxn"
+	"github.com/mit-pdos/go-nfsd/shrinker"
+)
+
+// VerifState exposes the file-system state to the verification harness.
+func (nfs *Nfs) VerifState() *fstxn.FsState { return nfs.fsstate }
+
+// VerifShrinker exposes the shrinker state to the verification harness.
+func (nfs *Nfs) VerifShrinker() *shrinker.ShrinkerSt { return nfs.shrinkst }
